@@ -12,7 +12,9 @@ A case (JSON-serialisable; replay never needs the PRNG):
    "list_gz": bool      the list file is written gzipped (list.tsv.gz),
    "args": "none"|"untagged-only"|"h1+o"   anomalous output options (replaces mode/requested),
    "pre": bool          every output file and the histogram exist beforehand with unrelated content,
-   reads[i]["cigar"]: [[op, n]…] (BAM; replaces cigar_len), reads[i]["flag"]: int (BAM, extra flag bits)}
+   reads[i]["cigar"]: [[op, n]…] (BAM; replaces cigar_len), reads[i]["flag"]: int (BAM, extra flag bits),
+   -- optional (round 8):
+   "names": "plain"|"wild"   read names `read<i>` only, or drawn from everything SAM QNAME / a FASTQ title allows (distribution only)}
 """
 import gzip, os
 
@@ -22,6 +24,44 @@ BASES = "ACGT"
 CONTIGS = {"chr1": "A" * 5000}
 
 
+# ---- read names (round 8).  SAM: QNAME = [!-?A-~]{1,254} (htslib also takes '@'); FASTQ: the title up to the first white
+# space.  '*' alone means "no name" in SAM, so it is left out altogether.  Nothing here is white space for `str.strip`.
+QCHARS = [chr(c) for c in range(33, 127) if chr(c) != "*"]
+LEAD = "####@@::/|=+-._,;!?$%&~^<>()[]{}'\"\\`"
+SPECIAL = ["#", "##", "#readname", "#readname#", "#r", "#1", "#H1", "#none", "none", "None", "NONE", "H1", "H2", "H3",
+           "H4", "H0", "H", "h1", "readname", "haplotype", "@", "@r", "@HD", "@SQ", ">r", "+", "-", ".", "..", "/", "|", "=", ":",
+           "a:b:c/1", "m64011_190830_220126/1/ccs", "x|y=z", "r#1", "r#", "r/2", "0", "1", "-1", "1e5", "\\", "\"q\"", "'", "`",
+           "chr1", "100", "%s", "{0}", "$HOME", "<r>", "~", "!", "?", ";", ",", "&", "(r)", "[r]", "r=", "=r", "#@", "@#"]
+
+
+def wild_name(rng, i):
+    x = rng.random()
+    if x < 0.25:
+        return rng.choice(SPECIAL)
+    if x < 0.45:
+        return rng.choice(LEAD) + f"read{i}"
+    if x < 0.55:
+        return f"read{i}" + rng.choice(LEAD)
+    if x < 0.65:
+        return rng.choice(LEAD) + f"read{i}" + rng.choice(LEAD)
+    if x < 0.72:
+        return "#" + rng.choice(SPECIAL)
+    if x < 0.95:
+        return "".join(rng.choice(QCHARS) for _ in range(rng.choice([1, 1, 2, 3, 5, 8, 12])))
+    return rng.choice(LEAD) + "".join(rng.choice(QCHARS) for _ in range(rng.choice([100, 252, 253])))     # up to 254 = the BAM limit
+
+
+def name_pool(rng, n, p_wild, stem="read", taken=()):
+    """n distinct names; each is wild with probability p_wild"""
+    pool, seen = [], set(taken)
+    for i in range(n):
+        nm = wild_name(rng, i) if rng.random() < p_wild else f"{stem}{i}"
+        while nm in seen or nm == "*":
+            nm = (nm + rng.choice(LEAD) + str(i))[:254] if len(nm) < 240 else f"{rng.choice(LEAD)}{stem}{i}_{len(seen)}"
+        seen.add(nm); pool.append(nm)
+    return pool
+
+
 def gen_case(rng, scale=1, combo=None):
     """combo (0..15) stratifies the option table: bit0 add, bit1 discard, bit2 largest, bit3 untagged output requested"""
     fmt = rng.choice(["fastq", "fastq", "fastq.gz", "bam", "bam"])
@@ -29,7 +69,12 @@ def gen_case(rng, scale=1, combo=None):
     mode = "h12" if ploidy == 2 and rng.random() < 0.5 else "o"
     n = rng.choice([0, 2, 3, 5, 8, 8, 12, 12, 20, 30]) * scale
     lens = [rng.choice([3, 4, 5, 8, 12]) for _ in range(4)] + [rng.randrange(1, 70) for _ in range(3)]
-    pool = [f"read{i}" for i in range(max(3, n))]
+    p_wild = rng.choice([0.25, 0.6, 1.0]) if rng.random() < 0.5 else 0.0
+    pool = name_pool(rng, max(3, n), p_wild)
+    if p_wild and n and rng.random() < 0.5 and not any(nm.startswith("#") for nm in pool[:n]):
+        j = rng.randrange(n)
+        if "#" + pool[j] not in pool:
+            pool[j] = ("#" + pool[j])[:254]
     reads = []
     discard = rng.random() < 0.4 if combo is None else bool(combo & 2)
     dup_reads = rng.random() < (0.7 if discard else 0.4)
@@ -65,8 +110,13 @@ def gen_case(rng, scale=1, combo=None):
     names_in_reads = sorted({r["name"] for r in reads})
     p_listed = rng.choice([0.3, 0.7, 1.0])
     listed = [nm for nm in names_in_reads if rng.random() < p_listed]
-    listed += [f"absent{i}" for i in range(rng.choice([0, 0, 1, 3]) or (0 if listed else 1))]
+    listed += name_pool(rng, rng.choice([0, 0, 1, 3]) or (0 if listed else 1), p_wild, stem="absent", taken=names_in_reads)
     rng.shuffle(listed)
+    hashed = [i for i, nm in enumerate(listed) if nm.startswith("#")]
+    if hashed and rng.random() < 0.6:
+        # a name starting with '#' at a chosen line: first (with a header: first data line), second, last, anywhere
+        nm = listed.pop(rng.choice(hashed))
+        listed.insert(rng.choice([0, 1, 1, len(listed), len(listed), rng.randrange(len(listed) + 1)]), nm)
     # duplicate names in the list: rare in general; more often (and several copies) with --only-largest-block and
     # without --discard-unknown-reads, where they decide between "number of lines" and "number of names" of a block
     dup_list = rng.random() < (0.3 if (want_largest and not discard) else 0.06) and listed
@@ -99,7 +149,8 @@ def gen_case(rng, scale=1, combo=None):
     else:
         requested = [want_untagged] + [True] * ploidy
     case = {"fmt": fmt, "reads": reads, "header": header, "rows": rows, "ploidy": ploidy, "mode": mode,
-            "requested": requested, "add": add, "discard": discard, "largest": largest}
+            "requested": requested, "add": add, "discard": discard, "largest": largest,
+            "names": "wild" if p_wild else "plain"}
     if mode == "o" and rng.random() < 0.05:          # a single -o: ploidy 1
         case["ploidy"] = 1
         case["requested"] = requested[:2]
@@ -137,7 +188,8 @@ def base_text(case):
 
 QUIRKS = ["crlf", "cr", "no-final-newline", "trailing-space", "leading-space", "leading-space-header", "blank-line",
           "blank-line-end", "extra-column", "empty-last-column", "short-line", "first-line-wide", "header-narrow",
-          "hash-first-name", "inner-space", "unicode-name", "mixed-newlines", "third-column-only"]
+          "hash-first-name", "inner-space", "unicode-name", "mixed-newlines", "third-column-only",
+          "hash-name-line", "header-repeated", "comment-line"]
 
 
 def perturb_text(rng, case):
@@ -189,6 +241,20 @@ def perturb_text(rng, case):
         return text, q
     elif q == "third-column-only" and lines and not four:
         lines = [l + "\tx" for l in lines]
+    elif q == "hash-name-line" and pick is not None:
+        # the read named on a data line (any position) gets a name starting with '#', in the list and in the reads
+        c = lines[pick].split("\t"); old = c[0]; new = rng.choice(["#", "#", "##", "#@"]) + old
+        lines = ["\t".join([new] + l.split("\t")[1:]) if (i >= data0 and l.split("\t")[0] == old) else l
+                 for i, l in enumerate(lines)]
+        for r in case["reads"]:
+            if r["name"] == old:
+                r["name"] = new[:254]
+    elif q == "header-repeated" and lines:
+        # a header-like line further down is a data line (only line 1 can be the header)
+        lines.insert(1 + rng.randrange(len(lines)), case["header"] if case["header"] is not None else
+                     "#readname\thaplotype" + ("\tphaseset\tchromosome" if four else ""))
+    elif q == "comment-line" and lines:
+        lines.insert(1 + rng.randrange(len(lines)), rng.choice(["#", "# comment", "#comment\tH1", "#\tnone", "#x\tH1\t100\tchr1"]))
     else:
         q = "none"
     text = nl.join(lines) + (nl if (final and lines) else "")
